@@ -50,6 +50,29 @@ class Vec(Stub):
         return [a * k for a in self.v]
 
 
+def check_kernel_wrappers(chk, r4):
+    """fix_full_model_x / get_full_model_x keep the 7-vector in kernel order, swap the three coefficient pairs together, apply the
+    single-slope sign convention and clamp against the *fit range* (T_min, T_max) — shared by C11/R11.4 and C01/R01.9 (the stored
+    coefficients are turned into the evaluated curve by exactly these wrappers)."""
+    fm = chk.repo.func(FM, "full_model")
+    fx = chk.repo.func(FM, "fix_full_model_x")
+    t = unparse(fx.node)
+    r4.require("hdd_bp, hdd_beta, hdd_k, cdd_bp, cdd_beta, cdd_k, intercept = x" in t.replace("(", "").replace(")", ""), f"{fx.key}|unpack-order", fx.where(), "fix_full_model_x must unpack the 7-vector in kernel order")
+    r4.require("return [hdd_bp, hdd_beta, hdd_k, cdd_bp, cdd_beta, cdd_k, intercept]" in t, f"{fx.key}|return-order", fx.where(), "fix_full_model_x must return the 7-vector in kernel order")
+    for f in (fx, fm):
+        sw = [s for s in ast.walk(f.node) if isinstance(s, ast.If) and unparse(s.test) == "cdd_bp < hdd_bp"]
+        ok = len(sw) == 1 and sorted(unparse(x) for x in sw[0].body) == sorted(["hdd_bp, cdd_bp = (cdd_bp, hdd_bp)", "hdd_beta, cdd_beta = (cdd_beta, hdd_beta)", "hdd_k, cdd_k = (cdd_k, hdd_k)"])
+        r4.require(ok, f"{f.key}|swap-all-three-pairs", f.where(), f"{f.name}: when cdd_bp < hdd_bp the balance points, slopes and smoothing parameters must be swapped together")
+    gx = chk.repo.func(FM, "get_full_model_x")
+    r4.require("x = [hdd_bp, hdd_beta, hdd_k, cdd_bp, cdd_beta, cdd_k, intercept]" in unparse(gx.node) and "return fix_full_model_x(x, T_min, T_max)" in unparse(gx.node), f"{gx.key}|assembles-kernel-order", gx.where(),
+               "get_full_model_x must assemble the 7-vector in kernel order and pass it through fix_full_model_x")
+    # c_hdd sign convention: negative slope => heating with |slope|
+    t = unparse(gx.node)
+    r4.require(t.count("if c_hdd_beta < 0:") == 2 and t.count("hdd_beta = -c_hdd_beta") == 2 and t.count("cdd_beta = c_hdd_beta") == 2, f"{gx.key}|c_hdd-sign-convention", gx.where(),
+               "single-slope models: a negative slope is a heating slope of magnitude -slope, otherwise a cooling slope")
+
+
+
 def weak_orders(symbols: List[str]):
     """All total pre-orders (orderings with ties) of the symbols, as dict symbol -> rank."""
     n = len(symbols)
@@ -220,21 +243,7 @@ def run(chk):
                    f"{f.qualname}: smoothing must rewrite x before the balance points are read and the kernel is called")
 
     # ------------------------------------------------------------------ R11.4
-    fx = chk.repo.func(FM, "fix_full_model_x")
-    t = unparse(fx.node)
-    r4.require("hdd_bp, hdd_beta, hdd_k, cdd_bp, cdd_beta, cdd_k, intercept = x" in t.replace("(", "").replace(")", ""), f"{fx.key}|unpack-order", fx.where(), "fix_full_model_x must unpack the 7-vector in kernel order")
-    r4.require("return [hdd_bp, hdd_beta, hdd_k, cdd_bp, cdd_beta, cdd_k, intercept]" in t, f"{fx.key}|return-order", fx.where(), "fix_full_model_x must return the 7-vector in kernel order")
-    for f in (fx, fm):
-        sw = [s for s in ast.walk(f.node) if isinstance(s, ast.If) and unparse(s.test) == "cdd_bp < hdd_bp"]
-        ok = len(sw) == 1 and sorted(unparse(x) for x in sw[0].body) == sorted(["hdd_bp, cdd_bp = (cdd_bp, hdd_bp)", "hdd_beta, cdd_beta = (cdd_beta, hdd_beta)", "hdd_k, cdd_k = (cdd_k, hdd_k)"])
-        r4.require(ok, f"{f.key}|swap-all-three-pairs", f.where(), f"{f.name}: when cdd_bp < hdd_bp the balance points, slopes and smoothing parameters must be swapped together")
-    gx = chk.repo.func(FM, "get_full_model_x")
-    r4.require("x = [hdd_bp, hdd_beta, hdd_k, cdd_bp, cdd_beta, cdd_k, intercept]" in unparse(gx.node) and "return fix_full_model_x(x, T_min, T_max)" in unparse(gx.node), f"{gx.key}|assembles-kernel-order", gx.where(),
-               "get_full_model_x must assemble the 7-vector in kernel order and pass it through fix_full_model_x")
-    # c_hdd sign convention: negative slope => heating with |slope|
-    t = unparse(gx.node)
-    r4.require(t.count("if c_hdd_beta < 0:") == 2 and t.count("hdd_beta = -c_hdd_beta") == 2 and t.count("cdd_beta = c_hdd_beta") == 2, f"{gx.key}|c_hdd-sign-convention", gx.where(),
-               "single-slope models: a negative slope is a heating slope of magnitude -slope, otherwise a cooling slope")
+    check_kernel_wrappers(chk, r4)
 
     # ------------------------------------------------------------------ R11.5 get_smooth_coeffs
     gs = chk.repo.func(BM, "get_smooth_coeffs")
